@@ -39,6 +39,8 @@ func tagClass(n *forge.Node) string {
 		return "integer"
 	case 0x01:
 		return "boolean"
+	case 0x0a:
+		return "enumerated"
 	case 0x06:
 		return "oid"
 	case 0x04:
@@ -118,6 +120,32 @@ func applyOp(op string, parent *forge.Node, ci int) bool {
 			return false
 		}
 		n.Content = append(n.Content, 0x41)
+	case "all-ff", "min-negative", "max-positive", "all-zero", "inc-last-byte":
+		// numbers (INTEGER, ENUMERATED, BOOLEAN): the extreme and neighbouring values of the same width
+		if !leaf || len(n.Content) == 0 {
+			return false
+		}
+		for i := range n.Content {
+			switch op {
+			case "all-ff":
+				n.Content[i] = 0xff
+			case "all-zero":
+				n.Content[i] = 0
+			case "min-negative":
+				n.Content[i] = 0
+				if i == 0 {
+					n.Content[i] = 0x80
+				}
+			case "max-positive":
+				n.Content[i] = 0xff
+				if i == 0 {
+					n.Content[i] = 0x7f
+				}
+			}
+		}
+		if op == "inc-last-byte" {
+			n.Content[len(n.Content)-1]++
+		}
 	case "duplicate-node":
 		parent.Children = append(parent.Children[:ci+1], append([]*forge.Node{n.Clone()}, parent.Children[ci+1:]...)...)
 	case "delete-node":
@@ -257,7 +285,16 @@ func cmdMutate(args []string) {
 		agg     map[string]int
 		triples map[string]bool
 	}
-	results := make([]result, len(jobs))
+	// inputs with several offenders of one kind (Plan_Multi), linted as they are
+	var plain []*Target
+	if only == "" || strings.HasPrefix(only, "forged:") {
+		for _, t := range extraTargets(rng) {
+			if only == "" || t.ID == only {
+				plain = append(plain, t)
+			}
+		}
+	}
+	results := make([]result, len(jobs)+1)
 	replayPath := os.Getenv("VERIF_MUTATION") // "path|op" to replay one mutation only
 	parallel(len(jobs), func(ji int) {
 		t := jobs[ji]
@@ -351,7 +388,30 @@ func cmdMutate(args []string) {
 		}
 		results[ji] = res
 	})
-	_ = rng
+	{
+		res := result{agg: map[string]int{}, triples: map[string]bool{}}
+		for _, mt := range plain {
+			res.mutants++
+			res.parsed++
+			rs, esc, hung := runSet(mt, g)
+			recovered := []string{}
+			if rs != nil {
+				for name, r := range rs.Results {
+					if r != nil && r.Status == lint.Fatal && detailsClass(name, r.Details) == "panicmsg" {
+						recovered = append(recovered, name)
+					}
+				}
+			}
+			sort.Strings(recovered)
+			if len(recovered) == 0 && esc == "" && !hung {
+				res.agg[mt.Kind+"|several-offenders|none"]++
+				continue
+			}
+			res.events = append(res.events, ev.M{"ev": "Mutant", "kind": mt.Kind, "base": mt.ID, "path": "[]", "op": "none", "class": "several-offenders", "n": 1,
+				"recovered": recovered, "escaped": esc != "", "hung": hung, "fatalUnexplained": []string{}, "panicMsg": esc, "der": b64(mt.DER)})
+		}
+		results[len(jobs)] = res
+	}
 	w := ev.Create(out("mutate.ndjson"))
 	agg := map[string]int{}
 	triples := map[string]bool{}
